@@ -636,7 +636,7 @@ bool GlobalGraph::nodesAreMetOnlyOnce_(const GlobalGraph::Node& node, set<Global
   vector<Graph::NodeId> neighbors = getOutgoingNeighbors(node);
   for (auto currNeighbor:neighbors)
   {
-    if (currNeighbor == originNode)
+    if (!directed_ && node != originNode && currNeighbor == originNode)
       continue;
     if (!nodesAreMetOnlyOnce_(currNeighbor, metNodes, node))
       return false;
